@@ -360,7 +360,7 @@ fn run_contract(id: &str, class: &ContractClass, direct_bytecode: Option<Vec<Big
         Ok(b) => b,
         Err(e) => {
             lines.push(json!({"finding": "compile_failed", "item": id, "path": ["Compile"], "detail": e}));
-            lines.push(json!({"item": id, "routes": 0, "steps": 0, "compiles": 1, "bytecode": 0, "eps": 0, "views": 0, "builtins": []}));
+            lines.push(json!({"item": id, "routes": 0, "steps": 0, "compiles": 1, "bytecode": 0, "eps": [0, 0, 0], "views": 0, "builtins": []}));
             return Out { lines, views };
         }
     };
